@@ -115,6 +115,9 @@ pub fn install_panic_hook() {
         } else {
             "<non-string panic>".into()
         };
+        if std::env::var_os("VERIF_BACKTRACE").is_some() {
+            eprintln!("PANIC {loc}: {msg}\n{}", std::backtrace::Backtrace::force_capture());
+        }
         LAST_PANIC.with(|p| {
             let mut p = p.borrow_mut();
             // keep the first panic of a run (a panic in Drop during unwinding would abort anyway)
